@@ -16,7 +16,7 @@ use std::time::Duration;
 
 pub const GRID: [(&str, &[&str]); 8] = [
     ("car-nested-list", &["read", "quote-evaluate", "build", "collect", "equal", "write", "drop"]),
-    ("cdr-nested-list", &["read", "quote-evaluate", "build", "collect", "equal", "write", "drop"]),
+    ("cdr-nested-list", &["read", "quote-evaluate", "build", "collect", "equal", "write", "drop", "append", "reverse", "length", "list->vector", "map", "apply", "member", "list-tail"]),
     ("nested-vectors", &["read", "quote-evaluate", "build", "collect", "equal", "write", "drop"]),
     ("quote-chain", &["read", "quote-evaluate", "build", "collect", "equal", "write", "drop"]),
     ("closure-chain", &["build", "collect", "call", "drop"]),
@@ -144,6 +144,23 @@ fn scenario(dir: &str, op: &str, n: usize) -> String {
                 let c = eval_all(&mut vm, &format!("(define kk #f) (define (dive n) (if (= n 0) (call/cc (lambda (k) (set! kk k) 0)) (+ 1 (dive (- n 1))))) (dive {}) (define again #t) (if again (begin (set! again #f) (kk 5)) 'done)", n))?;
                 vm.verif_force_gc();
                 Ok(short(&c))
+            }
+            ("cdr-nested-list", "append" | "reverse" | "length" | "list->vector" | "map" | "apply" | "member" | "list-tail") => {
+                eval_all(&mut vm, &builder_for(dir, "d", n))?;
+                let e = match op {
+                    "append" => "(list (length (append d (list 1 2))) (length (append d d)) (length (append (list 1) d)))".to_string(),
+                    "reverse" => "(car (reverse d))".to_string(),
+                    "length" => "(list (length d) (list? d))".to_string(),
+                    "list->vector" => "(length (vector->list (list->vector d)))".to_string(),
+                    "map" => "(begin (for-each (lambda (x) x) d) (length (map (lambda (x) (+ x 1)) d)))".to_string(),
+                    "apply" => "(apply + d)".to_string(),
+                    "member" => "(list (memq 'absent d) (member 0 d) (memv -1 d))".to_string(),
+                    _ => format!("(list (list-tail d {}) (list-ref d {}))", n - 1, n - 1),
+                };
+                let c = eval_all(&mut vm, &e)?;
+                let s = short(&c);
+                std::mem::forget(c);
+                Ok(s)
             }
             (_, "build") => {
                 eval_all(&mut vm, &builder_for(dir, "d", n))?;
